@@ -1623,3 +1623,75 @@ Proof.
   - destruct (fuse_groups_proof n c k qs gs Hit) as [Hall _].
     destruct (Hall g Hgi) as [Ho' _]. congruence.
 Qed.
+
+(* ================================================================ the guard `between_gates == {child}` is redundant *)
+Section Between.
+  Variable dir : bool.
+  Variables (lv : nat -> Prop) (qs : nat -> nat -> Prop) (nx pv : nat -> nat -> option nat).
+  Variables (p c : nat).
+  Hypothesis H0 : AdjG dir lv qs nx pv.
+  Hypothesis Hp : lv p.
+  Hypothesis Hc : lv c.
+  Hypothesis Hpc : bef dir p c.
+  Hypothesis Hothers : forall q j, pv c q = Some j -> j = p.
+
+  Ltac ordb := destruct dir; unfold bef in *; simpl in *; lia.
+
+  Lemma between_forced q : qs p q -> qs c q -> nx p q = Some c.
+  Proof.
+    intros Hqp Hqc. destruct H0 as [Hnx Hpv].
+    assert (forall m, bef dir p m -> bef dir m c -> ~ onG lv qs m q) as Hb2.
+    { destruct (pv c q) as [j|] eqn:E.
+      - pose proof (Hothers q j E). subst j.
+        destruct (proj1 Hpv c q p Hc E) as [_ [[_ [_ [_ Hb]]]|[Hd _]]]; [|contradiction].
+        intros m H1 H2. apply Hb; ordb.
+      - exfalso. apply (proj2 Hpv c q Hc Hqc E p); [ordb | split; auto]. }
+    destruct (nx p q) as [j|] eqn:E.
+    - destruct (proj1 Hnx p q j Hp E) as [_ [[Hlj [Hpj [Hqj Hb]]]|[Hd Hb]]].
+      + destruct (Nat.eq_dec j c) as [->|Hne]; auto. exfalso.
+        assert (bef dir j c \/ bef dir c j) as [H|H] by ordb.
+        * apply (Hb2 j); auto. split; auto.
+        * apply (Hb c); auto. split; auto.
+      + exfalso. apply (Hb c); auto. split; auto.
+    - exfalso. apply (proj2 Hnx p q Hp Hqp E c); auto. split; auto.
+  Qed.
+End Between.
+
+Lemma between_ok_intro m shared c :
+  shared <> [] -> (forall q, In q shared -> lookup m q = Some c) -> between_ok m shared c = true.
+Proof.
+  intros Hne H. unfold between_ok. destruct shared as [|q0 sh]; [congruence|].
+  apply forallb_forall. intros q Hq. apply opt_is_true. apply H; auto.
+Qed.
+
+(* FusedGate.fuse is only called by Circuit.fuse on a gate and its neighbour on some qubit q
+   (after can_fuse); then, in whichever branch the abort test selects, the `between_gates`
+   test of that branch is true: the guard never rejects anything. *)
+Theorem between_guard_redundant_proof n k c0 st l r q :
+  Inv n k c0 st ->
+  nmarked (getn st l) = false -> nmarked (getn st r) = false ->
+  rt st l q = Some r \/ lf st r q = Some l ->
+  let shared := sinter (nqs (getn st l)) (nqs (getn st r)) in
+  l < r
+  /\ (others (nleft (getn st r)) l = [] -> between_ok (nright (getn st l)) shared r = true)
+  /\ (others (nright (getn st l)) r = [] -> between_ok (nleft (getn st r)) shared l = true).
+Proof.
+  intros HI Hml Hmr Hnb shared. pose proof (inv_adj _ _ _ _ HI) as Hadj.
+  pose proof (unmarked_live _ Hml) as Hl. pose proof (unmarked_live _ Hmr) as Hr.
+  assert (l < r /\ In q shared) as [Hlr Hq].
+  { destruct Hnb as [E|E].
+    - destruct (proj1 (proj1 Hadj) l q r Hl E) as [Hq1 [[_ [Hlt [Hq2 _]]]|[Hd _]]]; [|contradiction].
+      split; [exact Hlt|]. apply sinter_In; auto.
+    - destruct (proj1 (proj2 Hadj) r q l Hr E) as [Hq1 [[_ [Hlt [Hq2 _]]]|[Hd _]]]; [|contradiction].
+      split; [exact Hlt|]. apply sinter_In; auto. }
+  split; auto. split; intros Hoth; rewrite others_nil in Hoth.
+  - apply between_ok_intro; [intros E; rewrite E in Hq; inversion Hq|].
+    intros q' Hq'. apply sinter_In in Hq'. destruct Hq' as [H1 H2].
+    apply (between_forced true (lvP st) (qsP st) (rt st) (lf st) l r Hadj Hl Hr Hlr); auto;
+      try (intros q0 j E; eapply Hoth; eauto).
+  - apply between_ok_intro; [intros E; rewrite E in Hq; inversion Hq|].
+    intros q' Hq'. apply sinter_In in Hq'. destruct Hq' as [H1 H2].
+    apply (between_forced false (lvP st) (qsP st) (lf st) (rt st) r l); auto;
+      try (intros q0 j E; eapply Hoth; eauto).
+    apply (AdjG_flip true). exact Hadj.
+Qed.
